@@ -113,8 +113,78 @@ def construction(report, db, cg, M, P):
             if len(vs) == 1:
                 return vs.pop()
         return None
+    def collection_of(t, src_ok, depth=0):
+        """V when t is a collection every element of which is V(x) for the
+        x of a source the caller accepts; a helper that builds the
+        collection is followed (one level per helper)"""
+        while t[0] == 'op' and t[1] in ('set', 'frozenset', 'list', 'tuple',
+                                        'sorted') and len(t[2]) == 1:
+            t = t[2][0]
+        if t[0] == 'op' and t[1] == 'map' and len(t[2]) == 2 and \
+                src_ok(t[2][1]) and t[2][0][0] == 'fn':
+            return t[2][0][1]
+        if t[0] == 'call' and t[1][0] == 'fn' and not t[3] and \
+                len(t[2]) == 1 and depth < 3:
+            h = t[1][1]
+            if isinstance(h.node, ast.Lambda) or len(h.all_params) != 1:
+                return None
+            par = ('sym', h.all_params[0])
+            arg = t[2][0]
+            vs = set()
+            for q in S0.run(h):
+                if not q.returns:
+                    continue
+                if arg[0] in ('tuple', 'list', 'set') and any(
+                        a[1] == 'is' and struct(a[2][0]) == par and
+                        a[2][1] == ('const', None) and pol
+                        for a, pol, _ in q.conds):
+                    continue    # the argument is a literal, not None
+                vs.add(collection_of(
+                    q.value, lambda x: struct(x) == par and src_ok(arg),
+                    depth + 1) if q.value is not None else None)
+            if len(vs) == 1:
+                return vs.pop()
+        return None
+
+    def one_validated(t):
+        """V when t is V(initial_version), or the largest / smallest of a
+        collection whose only element is V(initial_version)"""
+        v = applied_to(t, lambda a: struct(a) == initial)
+        if v is not None:
+            return v
+        if t[0] == 'op' and t[1] in ('max', 'min') and t[2]:
+            return collection_of(
+                t[2][0], lambda x: x[0] in ('tuple', 'list', 'set') and
+                len(x[1]) == 1 and struct(x[1][0]) == initial)
+        return None
+    def plain(t, depth=0):
+        """a collection-building helper called with a literal argument (or
+        None) is what its one matching path returns"""
+        if t[0] == 'call' and t[1][0] == 'fn' and not t[3] and \
+                len(t[2]) == 1 and depth < 3 and not isinstance(
+                    t[1][1].node, ast.Lambda) and \
+                len(t[1][1].all_params) == 1 and (
+                    t[2][0] == ('const', None) or
+                    t[2][0][0] in ('tuple', 'list', 'set')):
+            h = t[1][1]
+            par = ('sym', h.all_params[0])
+            arg = t[2][0]
+            outs = []
+            for q in S0.run(h):
+                if not q.returns or q.value is None:
+                    continue
+                isnone = [pol for a, pol, _ in q.conds if a[1] == 'is'
+                          and struct(a[2][0]) == par
+                          and a[2][1] == ('const', None)]
+                if isnone and isnone[0] != (arg == ('const', None)):
+                    continue
+                outs.append(pathsum.replace(q.value, par, arg))
+            if len(outs) == 1:
+                return plain(outs[0], depth + 1)
+        return t
     val_init, val_allowed = set(), set()
     bypass = []
+    default_bad = []
     npaths = 0
     for p in S0.run(init):
         if not p.returns:
@@ -131,12 +201,24 @@ def construction(report, db, cg, M, P):
             if struct(e.base) != me:
                 continue
             if e.attr == 'default_proto_version' and none_i is False:
-                v = applied_to(e.value, lambda a: struct(a) == initial)
+                v = one_validated(e.value)
                 if v is None:
                     bypass.append((e, 'initial_version is stored as %s'
                                    % show(e.value)))
                 else:
                     val_init.add(v)
+            elif e.attr == 'default_proto_version' and none_i is True:
+                # no initial version: the default is the latest *allowed*
+                # one (what this path stored as the allowed set)
+                stored = [x.value for x in p.flat(('store',))
+                          if struct(x.base) == me and
+                          x.attr == 'allowed_proto_versions']
+                t = e.value
+                coll = t[2][0] if t[0] == 'op' and t[1] == 'max' and t[2] \
+                    else None
+                if coll is None or not stored or \
+                        struct(plain(coll)) != struct(plain(stored[-1])):
+                    default_bad.append((e, show(t)[:120]))
             elif e.attr == 'default_proto_version' and none_i is None:
                 bypass.append((e, 'the default version does not depend on '
                                'initial_version being given'))
@@ -157,6 +239,16 @@ def construction(report, db, cg, M, P):
         report.violation(R, 'helper:bypassed', init.path, e.node,
                          init.qualname, '%s: it does not pass through the '
                          'validating helper' % why)
+    for e, what in default_bad[:1]:
+        report.violation(R, 'default:not-latest-allowed', init.path, e.node,
+                         init.qualname, 'without an initial_version the '
+                         'default version is %s: not the latest of the '
+                         'allowed versions -- the fallback after a failed '
+                         'status query then logs in with a version the '
+                         'caller did not allow' % what)
+    if not default_bad:
+        report.ok(R, 'without an initial_version the default is the latest '
+                  'allowed version')
     if bypass:
         return
     if len(val_init) != 1 or val_init != val_allowed:
@@ -886,6 +978,12 @@ def plain_status(report, db, S, M, P, rule_id='R09.6', only=None):
                 kind = 'default'
             elif struct(v) == h:
                 kind = 'user'
+            elif v[0] == 'fn' and len(v) > 2 and v[2] == r and \
+                    r[0] == 'obj' and r[3] is not None and \
+                    v[1] is db.find_method(r[3], hname):
+                # the reactor's own method stored back on the reactor: what
+                # the attribute meant before the store
+                kind = 'default'
             elif v[0] == 'fn' and does_nothing(S, v[1]):
                 kind = 'noop'
             else:
